@@ -711,6 +711,8 @@ def run(tier, seed):
     # concrete failing input
     gen_tie.gate(chk, ['logic_or', 'logic_and', 'prefer_expression', 'from_result', 'is_match', 'filter_ignored_mismatch',
                          'filter_match'], gate)
+    # fourth round: the whole of filter_match with its sub-stages translated (glue family; same target name)
+    gen_tie.gate(chk, ['filter_match'], gate, family="glue")
     binary, err = vlib.build_harness()
     if binary is None:
         chk.violation("broken-obligation", "harness-build", dict(error=err), no_input=True)
